@@ -213,20 +213,20 @@ Lemma ortho_offdiag B : ortho B -> offdiag_nonzero B = false.
 Proof. intros (H1 & H2 & H3). unfold offdiag_nonzero. rewrite H1, H2, H3. reflexivity. Qed.
 
 Section OrthoComplete.
-Variables (B : box) (c : Z) (xyz : list vec).
+Variables (fl : bool) (B : box) (c : Z) (xyz : list vec).
 Hypothesis HB : box_ok B.
 Hypothesis HO : ortho B.
 Hypothesis Hc : 0 < c.
 Hypothesis Hhalf : 2 * c <= b_ax B /\ 2 * c <= b_by B /\ 2 * c <= b_cz B.
 Hypothesis Hin : forall k, (k < length xyz)%nat -> in_cell B (pos xyz k).
 
-Let g := the_grid (Some B) c xyz.
+Let g := the_grid fl (Some B) c xyz.
 Let ny := nvox_per (b_by B) c.
 Let nz := nvox_per (b_cz B) c.
 
-Lemma g_unfold : g = mkGrid true false B ny nz (b_by B) ny (b_cz B) nz 0 0.
+Lemma g_unfold : g = mkGrid true false B ny nz (b_by B) ny (b_cz B) nz 0 0 fl.
 Proof.
-  unfold g, the_grid, make_grid. rewrite (reduce_box_ortho B HB HO). rewrite (ortho_offdiag B HO). reflexivity.
+  unfold g, the_grid, make_grid_gen. rewrite (reduce_box_ortho B HB HO). rewrite (ortho_offdiag B HO). reflexivity.
 Qed.
 
 Lemma vox_index_incell p : in_cell B p ->
@@ -285,7 +285,8 @@ Proof. rewrite g_unfold. reflexivity. Qed.
 Lemma ywindow_eq vyi z : ywindow g c vyi z =
   let d := dindex true c (b_by B) ny ny in zrange (vyi - d) (Z.min (vyi + d) (vyi - d + ny - 1)).
 Proof.
-  rewrite g_unfold. unfold ywindow, yoffset. cbn [g_per g_box g_ny g_nz g_syn g_syd].
+  rewrite g_unfold. unfold ywindow, yoffset. cbn [g_per g_box g_ny g_nz g_syn g_syd g_fully g_tric].
+  rewrite andb_false_r. cbn [andb].
   destruct HO as (_ & _ & H3). rewrite H3. rewrite Z.mul_0_r, Z.mul_0_l. unfold cdiv. cbn [Z.opp]. rewrite Z.div_0_l.
   - cbn [Z.opp]. cbv zeta. now rewrite !Z.sub_0_r.
   - destruct HB as (_ & Hb & _). lia.
@@ -406,7 +407,7 @@ Qed.
 Theorem ortho_incell_half i j k1 k2 k3 :
   (j < i)%nat -> (i < length xyz)%nat ->
   norm2 (vsub (vsub (pos xyz j) (pos xyz i)) (lat B k1 k2 k3)) < c * c ->
-  In j (nth i (nlist_half (Some B) c xyz) []).
+  In j (nth i (nlist_half_gen fl (Some B) c xyz) []).
 Proof.
   intros Hji Hi Hn.
   rewrite nth_nlist_half by exact Hi. fold g.
@@ -474,7 +475,7 @@ Proof.
   rewrite HD0.
   set (np := needp_of p D).
   cbn [r_skip]. apply filter_In.
-  assert (Hbin : In (j, q) (the_bins (Some B) c xyz vyj vzj)).
+  assert (Hbin : In (j, q) (the_bins fl (Some B) c xyz vyj vzj)).
   { apply in_the_bins. cbn [fst snd]. split; [exact Hj|]. split; [reflexivity|]. fold g. exact Evq. }
   split; [exact Hbin|].
   apply cand_ok_iff. cbn [fst snd]. split; [exact Hji|].
@@ -494,7 +495,7 @@ Proof.
       apply sq_mono_abs; [exact HS2|]. clear - Hrel H Hxi Hxj Ha. nia. }
   split.
   - (* inside the x ranges *)
-    pose proof (xrange_ok g (vx p) (vx q) dx k1 D np (the_bins (Some B) c xyz vyj vzj)) as HX.
+    pose proof (xrange_ok g (vx p) (vx q) dx k1 D np (the_bins fl (Some B) c xyz vyj vzj)) as HX.
     cbv zeta in HX. rewrite gS_eq, g_box_eq in HX. fold S2 in HX.
     apply HX; clear HX; try assumption; try lia.
     + intros e He. apply in_the_bins in He. destruct He as (Hk & Epos & _).
